@@ -373,6 +373,10 @@ def _run(spec, w):
           from scales.message import MethodCallMessage
           tsec = (to or spec.get('timeout', 64)) * V.TICK
           msg = MethodCallMessage(Hello.Iface, 'hi', (arg,), {})
+          if e.get('past'):
+            # a deadline that has already passed when the message enters the chain (the request greenlet was starved)
+            tsec = -e['past'] * V.TICK
+            rec['timeout'] = -e['past']
           ar = MessageDispatcher.StaticDispatchMessage(client._dispatcher.next_sink, None, w.clock.now, w.clock.now + tsec, msg)
           rec['opened'] = True
           rec['direct'] = True
